@@ -234,6 +234,59 @@ pub fn run_c17(args: &Args) -> Report {
             }
         }
     }
+    // directory names the display string of a path cannot carry faithfully: invalid UTF-8, blanks, quotes, non-ASCII
+    if bin.exists() && args.shard == 0 {
+        use std::os::unix::ffi::OsStrExt;
+        let names: Vec<Vec<u8>> = vec![b"caf\xe9".to_vec(), b"dir with  space".to_vec(), "日本語".as_bytes().to_vec(), b"q'uo\"te".to_vec(), b"a\\b".to_vec(), b"\xff\xfe".to_vec()];
+        for (ni, name) in names.iter().enumerate() {
+            for nested in [false, true] {
+                let root = work.join(format!("odd{ni}{}", nested as u8));
+                let _ = std::fs::remove_dir_all(&root);
+                let mut d = root.join(std::ffi::OsStr::from_bytes(name));
+                if nested {
+                    d = d.join("inner");
+                }
+                std::fs::create_dir_all(&d).unwrap();
+                std::fs::write(d.join("items.txt"), b"one\n").unwrap();
+                std::fs::write(d.join("m.txt.txtpp"), b"top\n// TXTPP#run cat items.txt; pwd -P | wc -l\nend\n").unwrap();
+                // base directory = the odd directory's parent (the source is named through the odd component), or the directory itself
+                for from_inside in [false, true] {
+                    // inputs are `String`s by type (library and CLI): a name that is not UTF-8 can only be reached from inside
+                    if !from_inside && std::str::from_utf8(name).is_err() {
+                        continue;
+                    }
+                    let _ = std::fs::remove_file(d.join("m.txt"));
+                    let mut c = Command::new(&bin);
+                    c.env_remove("TXTPP_FILE").arg("-q");
+                    if from_inside {
+                        c.current_dir(&d).arg("m.txt.txtpp");
+                    } else {
+                        c.current_dir(&root);
+                        let mut rel = std::path::PathBuf::from(std::ffi::OsStr::from_bytes(name));
+                        if nested {
+                            rel = rel.join("inner");
+                        }
+                        c.arg(rel.join("m.txt.txtpp"));
+                    }
+                    let o = c.output().expect("cli");
+                    rep.evaluations += 1;
+                    rep.sigs.insert(format!("odd-dir|{ni}|{nested}|{from_inside}"));
+                    let out = std::fs::read(d.join("m.txt")).unwrap_or_default();
+                    if !o.status.success() || out != b"top\none\n1\nend\n" {
+                        rep.violation(
+                            "oracle",
+                            &format!(
+                                "C17: a source in the directory {:?} (nested={nested}, invoked from inside={from_inside}) running `cat items.txt` (a file next to the source): exit success={}, output {:?}, expected \"top\\none\\n1\\nend\\n\" - the command must run in the source's directory",
+                                String::from_utf8_lossy(name), o.status.success(), String::from_utf8_lossy(&out)
+                            ),
+                            &format!("# directory name bytes {:?}; file m.txt.txtpp = \"top\\n// TXTPP#run cat items.txt; pwd -P | wc -l\\nend\\n\", items.txt = \"one\\n\"; run: (cd <dir> && txtpp -q m.txt.txtpp)\ncfg: build true false 1\n", name),
+                        );
+                    }
+                }
+                let _ = std::fs::remove_dir_all(&root);
+            }
+        }
+    }
     // the CLI guard
     if bin.exists() && args.shard == 0 {
         let p = Project { files: vec![("g.txt.txtpp".into(), b"x\n".to_vec())], dirs: vec![], cmds: vec![], sources: vec!["g.txt.txtpp".into()], sig: vec![], expect_error: false };
